@@ -412,6 +412,14 @@ func (c *FlipCtx) Err() error {
 	return nil
 }
 
+// CauseParent: a standard-library context that has been cancelled with a custom cause. Used as the embedded parent of a
+// FlipCtx: Err() stays the FlipCtx's own, Value() reaches the cancelCtx, so context.Cause(flip) yields the custom error.
+func CauseParent() context.Context {
+	c, cancel := context.WithCancelCause(context.Background())
+	cancel(errors.New("verif: custom cancellation cause"))
+	return c
+}
+
 // Snapshot renders a value deeply and deterministically (contents of slices, maps, pointer targets).
 func Snapshot(v any) string {
 	var sb strings.Builder
@@ -757,7 +765,10 @@ func (r *runner) writeDriver(sc *Scenario, results []*DeclResult, mode string) {
 			if has("ctx") {
 				fmt.Fprintf(&sb, "\t\tfor k := 0; k <= %d; k++ {\n", dr.Polls+1)
 				sb.WriteString("\t\t\tfor _, kind := range []error{context.Canceled, context.DeadlineExceeded} {\n")
+				// odd k: the parent is a standard context already cancelled WITH A CUSTOM CAUSE — invisible through Err() (overridden),
+				// but a validator that returns context.Cause(ctx) instead of ctx.Err() hands out that cause
 				sb.WriteString("\t\t\t\tc := &rt.FlipCtx{Context: context.Background(), K: k, Kind: kind}\n")
+				sb.WriteString("\t\t\t\tif k%2 == 1 {\n\t\t\t\t\tc.Context = rt.CauseParent()\n\t\t\t\t}\n")
 				sb.WriteString("\t\t\t\to := rt.Run(func() error { return v.ValidateContext(c) })\n")
 				sb.WriteString("\t\t\t\textra = append(extra, fmt.Sprintf(\"ctx%d%s=%s#%d\", k, map[bool]string{true: \"c\", false: \"d\"}[kind == context.Canceled], o, c.Calls))\n")
 				sb.WriteString("\t\t\t}\n\t\t}\n")
